@@ -107,6 +107,7 @@ type NondetRec struct {
 }
 
 type Exec struct {
+	instTerms []*T // terms registered by vhInstantiate (instantiation points of callee summaries)
 	prog        *ssa.Program
 	modPath     string
 	assumes     []*T
